@@ -318,6 +318,26 @@ Theorem c12_live_xsd_known : xsd_known_b live_table live_xsd xsd_extra_allowed =
 Proof. exact live_xsd_known_ok. Qed.
 Print Assumptions c12_live_xsd_known.
 
+(* ---------------------------------------------------------------- round 7: the BRACKETS of every child entry of the
+   live table agree with the class's own c_cardinality (regenerated obligation Live.live_brackets_ok) ... *)
+Theorem c12_live_brackets_card : forallb brackets_ok_b live_table = true.
+Proof. exact live_brackets_ok. Qed.
+Print Assumptions c12_live_brackets_card.
+
+(* ... so a child a live class declares repeatable (no max, max > 1) is list-valued in the table the model parses along
+   (a list member appends every occurrence, only a singleton keeps the last), and a child declared single is a singleton *)
+Theorem c12_live_repeatable_is_list : forall c ci s,
+  class_at live_table c = Some ci -> In s (c_children ci) -> ch_class s <> None ->
+  card_many ci (ch_member s) = Some true -> ch_list s = true.
+Proof. exact live_repeatable_is_list. Qed.
+Print Assumptions c12_live_repeatable_is_list.
+
+Theorem c12_live_single_is_single : forall c ci s,
+  class_at live_table c = Some ci -> In s (c_children ci) -> ch_class s <> None ->
+  card_many ci (ch_member s) = Some false -> ch_list s = false.
+Proof. exact live_single_is_single. Qed.
+Print Assumptions c12_live_single_is_single.
+
 (* ... and a table polluted by a sibling's child (the aliased child table) is consistent in itself, satisfies nd_b,
    and is caught both by the obligation and on the document *)
 Theorem c12_xsd_pollution_detected :
